@@ -480,7 +480,28 @@ def run(tier):
         if len(bad) > 12:
             chk.corr_fail.append({'class': 'model-differs', 'more': len(bad) - 12})
 
+    # ---- the command-line interface on several scripts: each script's includes resolve against ITS OWN location (a file script:
+    #      its directory; an inline -c script: the working directory), whatever ran before it in the same invocation
+    H = lambda tag: f"systemLog('{tag}')\n"     # noqa: E731
+    cli_files = {'helper.bare': H('cwd helper'), 'lib/helper.bare': H('lib helper'), 'lib/first.bare': "include 'helper.bare'\n" + H('first'),
+                 'other/helper.bare': H('other helper'), 'other/second.bare': "include 'helper.bare'\n" + H('second'),
+                 'lib/deep/third.bare': "include '../helper.bare'\n" + H('third')}
+    inline = "include 'helper.bare'\nsystemLog('inline')"
+    cli_cases = [
+        (['lib/first.bare', '-c', inline], ['lib helper', 'first', 'cwd helper', 'inline']),
+        (['-c', inline, 'lib/first.bare'], ['cwd helper', 'inline', 'lib helper', 'first']),
+        (['lib/first.bare', 'other/second.bare', '-c', inline], ['lib helper', 'first', 'other helper', 'second', 'cwd helper', 'inline']),
+        (['lib/deep/third.bare', 'other/second.bare', '-c', inline], ['lib helper', 'third', 'other helper', 'second', 'cwd helper', 'inline']),
+        (['-c', inline, '-c', inline], ['cwd helper', 'inline', 'cwd helper', 'inline']),
+    ]
+    cli_out = core.run_impl('cli_multi', [{'files': cli_files, 'argv': argv} for argv, _ in cli_cases], shards=1)
+    for (argv, want), got in zip(cli_cases, cli_out):
+        if got.get('out') != want or got.get('status') not in (0, None):
+            chk.oracle_fail.append({'class': 'cli-include-not-resolved-against-its-own-script', 'source': ' '.join(argv), 'input': {'argv': argv, 'files': cli_files},
+                                    'expected': want, 'got': got})
+
     chk.coverage = {
+        'cli_invocations': len(cli_cases),
         'evaluations': len(trees) + len(pairs) + len(cli_names),
         'distinct_nontrivial': nontrivial,
         'rule': 'include trees (depth <= 4, fan-out <= 3, <= 45 include entries) over a dict-backed fetchFn: URL / relative / absolute path / '
